@@ -389,6 +389,7 @@ class Connection(object):
         if sent_size:
             self._logger.debug('TX %d octets, remain %d octets (msg empty %s)', sent_size, len(
                 self.__tx_buf), up_empty)
+            self.send_progress(sent_size)
         cont = (not buf_empty or not up_empty)
         if not cont:
             self.send_drained()
@@ -405,6 +406,14 @@ class Connection(object):
     def send_drained(self):
         ''' A handler function to be used when all buffered data has been
         written to the socket.
+        '''
+        pass
+
+    def send_progress(self, size):
+        ''' A handler function to be used when some buffered data has been
+        written to the socket.
+
+        :param size: The number of octets written.
         '''
         pass
 
@@ -601,6 +610,11 @@ class Messenger(Connection):
         :type buf_use: int
         '''
         pass
+
+    def send_progress(self, size):
+        # Octets leaving are traffic as much as octets arriving
+        if self._in_sess:
+            self._idle_reset()
 
     def close(self):
         self._idle_stop()
